@@ -782,7 +782,6 @@ func (t *sourceTracer) DataQueue() []tracerMutation {
 
 func (t *sourceTracer) TransitionEnd(tx *am.Transition) {
 	s := t.s
-	srcMach := s.Source
 
 	// lock
 	s.lockCollection.Lock()
@@ -798,32 +797,8 @@ func (t *sourceTracer) TransitionEnd(tx *am.Transition) {
 		t.calcTrackedStates(allStates)
 	}
 
-	qTick := srcMach.QueueTick()
-	machTick := srcMach.MachineTick()
-	mTime := srcMach.Time(nil)
-	trackedTSum := mTime.Filter(t.trackedStateIdxs).Sum(nil)
-
-	// filter the time slice
-	if !s.syncSchema {
-		mTime = mTime.Filter(t.trackedStateIdxs)
-	}
-	if s.syncShallowClocks {
-		mTime = am.NewTime(mTime, mTime.ActiveStates(nil))
-		trackedTSum = mTime.Sum(nil)
-	}
-
-	// update
-	d := &tracerData{
-		mTime:           mTime,
-		mTrackedTimeSum: trackedTSum,
-		// mTimeSumClient: mTimeClient.Sum(nil),
-		queueTick:   qTick,
-		machTick:    machTick,
-		checksum:    Checksum(trackedTSum, qTick, machTick),
-		tracked:     t.trackedStates,
-		trackedIdxs: t.trackedStateIdxs,
-	}
-	t.dataLatest = d
+	d := t.snapshot()
+	qTick, trackedTSum := d.queueTick, d.mTrackedTimeSum
 
 	// DEBUG
 	// if srcMach.Id() == "ns-TestPartial" {
@@ -856,6 +831,42 @@ func (t *sourceTracer) TransitionEnd(tx *am.Transition) {
 		// try to push this tx to the client
 		t.s.pushClient()
 	}()
+}
+
+// snapshot stores the source's current clocks as the latest data. Requires
+// [Server.lockCollection].
+func (t *sourceTracer) snapshot() *tracerData {
+	s := t.s
+	srcMach := s.Source
+
+	qTick := srcMach.QueueTick()
+	machTick := srcMach.MachineTick()
+	mTime := srcMach.Time(nil)
+	trackedTSum := mTime.Filter(t.trackedStateIdxs).Sum(nil)
+
+	// filter the time slice
+	if !s.syncSchema {
+		mTime = mTime.Filter(t.trackedStateIdxs)
+	}
+	if s.syncShallowClocks {
+		mTime = am.NewTime(mTime, mTime.ActiveStates(nil))
+		trackedTSum = mTime.Sum(nil)
+	}
+
+	// update
+	d := &tracerData{
+		mTime:           mTime,
+		mTrackedTimeSum: trackedTSum,
+		// mTimeSumClient: mTimeClient.Sum(nil),
+		queueTick:   qTick,
+		machTick:    machTick,
+		checksum:    Checksum(trackedTSum, qTick, machTick),
+		tracked:     t.trackedStates,
+		trackedIdxs: t.trackedStateIdxs,
+	}
+	t.dataLatest = d
+
+	return d
 }
 
 func (t *sourceTracer) SchemaChange(mach am.Api, oldSchema am.Schema) {
